@@ -385,6 +385,32 @@ def run(ctx):
     finally:
         shutil.rmtree(tmp, ignore_errors=True)
     ctx.counted('histories, threads, sharing', evals, len(collide), [{'call': list(make_call())}, {'call': list(make_call())}])
+    # the directory walker object, too, answers from its arguments and the file system only: any number of runs of one
+    # object, interleaved with runs of another one, give the files and the skipped count of a fresh object
+    import trees as _trees
+    from wcmatch import wcmatch as _WM
+    nw = 0
+    with _trees.Tree(_trees.DESIGNED[0]) as TW:
+        for fp_, ep_, fl_ in (('*.txt', '', _WM.RECURSIVE), ('*', 'sub', _WM.RECURSIVE | _WM.HIDDEN), ('a*|!*.txt', '', _WM.RECURSIVE | _WM.SYMLINKS),
+                              ('*/*', '', _WM.RECURSIVE | _WM.FILEPATHNAME), ('', '', 0), ('x*', '.*', _WM.RECURSIVE | _WM.HIDDEN)):
+            fresh = _WM.WcMatch(TW.root, fp_, ep_, flags=fl_)
+            want = (sorted(fresh.match()), fresh.get_skipped())
+            w1 = _WM.WcMatch(TW.root, fp_, ep_, flags=fl_)
+            other = _WM.WcMatch(TW.root, '*', '', flags=_WM.RECURSIVE | _WM.HIDDEN)
+            hist = []
+            for k in range(4):
+                if k == 2:
+                    other.match()
+                    list(w1.imatch())
+                    hist.append((None, w1.get_skipped()))
+                    continue
+                hist.append((sorted(w1.match()), w1.get_skipped()))
+            nw += 4
+            if any((r is not None and r != want[0]) or sk != want[1] for r, sk in hist):
+                ctx.counterexample('WcMatch(%r, %r, %#x): runs of one object give skipped counts %r, a fresh object %d (files equal: %r)' % (
+                    fp_, ep_, fl_, [sk for _, sk in hist], want[1], [r is None or r == want[0] for r, _ in hist]),
+                    {'file_pattern': fp_, 'exclude_pattern': ep_, 'flags': fl_, 'tree': _trees.DESIGNED[0]})
+    ctx.counted('a walker object re-run', nw, nw // 2, [{'file_pattern': '*.txt', 'runs': 4}])
     return ctx.finish(RULE)
 
 
